@@ -81,7 +81,14 @@ impl Report {
         }
     }
     pub fn violation(&mut self, fingerprint: impl Into<String>, detail: impl Into<String>) {
-        self.violations.push(Violation { fingerprint: fingerprint.into(), detail: detail.into() });
+        let (fingerprint, detail): (String, String) = (fingerprint.into(), detail.into());
+        // a command outcome of class "harness" (the scheduler gave up: no quiescence within its budget,
+        // step cap, replay divergence) says nothing about the code under test
+        if fingerprint.split(['/', ':', '-', ' ']).any(|t| t == "harness") || detail.starts_with("scheduler stopped with") {
+            self.harness_errors.push(format!("{fingerprint}: {detail}"));
+            return;
+        }
+        self.violations.push(Violation { fingerprint, detail });
     }
 }
 
@@ -339,10 +346,11 @@ pub fn batch(prop: &'static dyn Prop, tier: Tier, seed: u64) -> BatchResult {
     let queue = Arc::new(Mutex::new(chunks.into_iter().collect::<std::collections::VecDeque<_>>()));
     let lines: Arc<Mutex<Vec<RunLine>>> = Arc::default();
     let worker_failures: Arc<Mutex<Vec<String>>> = Arc::default();
+    let retries: Arc<std::sync::atomic::AtomicU64> = Arc::default();
     let exe = std::env::current_exe().expect("current_exe");
     let mut handles = vec![];
     for s in 0..slots {
-        let (queue, lines, worker_failures, exe) = (queue.clone(), lines.clone(), worker_failures.clone(), exe.clone());
+        let (queue, lines, worker_failures, exe, retries) = (queue.clone(), lines.clone(), worker_failures.clone(), exe.clone(), retries.clone());
         let id = prop.id();
         let scheduled = prop.scheduled();
         handles.push(std::thread::spawn(move || {
@@ -361,37 +369,66 @@ pub fn batch(prop: &'static dyn Prop, tier: Tier, seed: u64) -> BatchResult {
                 } else {
                     (-1, vec![])
                 };
-                let runs_s = runs.iter().map(u64::to_string).collect::<Vec<_>>().join(",");
-                let out = Command::new(&exe)
-                    .arg("worker")
-                    .arg(id)
-                    .arg(tier.name())
-                    .arg(seed.to_string())
-                    .arg(runs_s)
-                    .arg(pool.to_string())
-                    .arg(sched_cpu.to_string())
-                    .arg(worker_cpus.iter().map(usize::to_string).collect::<Vec<_>>().join(","))
-                    .arg(left.as_secs().to_string())
-                    .stderr(Stdio::piped())
-                    .stdout(Stdio::piped())
-                    .output();
-                match out {
-                    Ok(o) => {
-                        let mut got = BTreeSet::new();
-                        for l in String::from_utf8_lossy(&o.stdout).lines() {
-                            if let Ok(rl) = serde_json::from_str::<RunLine>(l) {
-                                let _ = got.insert(rl.run);
-                                lines.lock().unwrap().push(rl);
+                // A scenario whose report carries a harness error (or whose worker died) is executed again in a
+                // fresh process, up to two more times: scenarios are deterministic, so an environmental
+                // glitch (an overloaded machine starving the scheduler) does not repeat, a real harness
+                // bug does and is then reported.
+                let mut pending = runs.clone();
+                let mut attempt = 0;
+                while !pending.is_empty() {
+                    let left = wall_cap.saturating_sub(t0.elapsed());
+                    let runs_s = pending.iter().map(u64::to_string).collect::<Vec<_>>().join(",");
+                    let out = Command::new(&exe)
+                        .arg("worker")
+                        .arg(id)
+                        .arg(tier.name())
+                        .arg(seed.to_string())
+                        .arg(runs_s)
+                        .arg(pool.to_string())
+                        .arg(sched_cpu.to_string())
+                        .arg(worker_cpus.iter().map(usize::to_string).collect::<Vec<_>>().join(","))
+                        .arg(left.as_secs().max(30).to_string())
+                        .stderr(Stdio::piped())
+                        .stdout(Stdio::piped())
+                        .output();
+                    let mut again = vec![];
+                    match out {
+                        Ok(o) => {
+                            let mut got = BTreeSet::new();
+                            for l in String::from_utf8_lossy(&o.stdout).lines() {
+                                if let Ok(rl) = serde_json::from_str::<RunLine>(l) {
+                                    let _ = got.insert(rl.run);
+                                    if !rl.report.harness_errors.is_empty() && attempt < 2 {
+                                        again.push(rl.run);
+                                    } else {
+                                        lines.lock().unwrap().push(rl);
+                                    }
+                                }
+                            }
+                            let missing: Vec<u64> = pending.iter().copied().filter(|r| !got.contains(r)).collect();
+                            if !missing.is_empty() {
+                                if attempt < 2 {
+                                    again.extend(missing);
+                                } else {
+                                    let err = String::from_utf8_lossy(&o.stderr);
+                                    let tail: String = err.lines().rev().take(12).collect::<Vec<_>>().into_iter().rev().collect::<Vec<_>>().join("\n");
+                                    worker_failures.lock().unwrap().push(format!("worker for runs {missing:?} ended with {:?}: {tail}", o.status));
+                                }
                             }
                         }
-                        if !o.status.success() {
-                            let missing: Vec<u64> = runs.iter().copied().filter(|r| !got.contains(r)).collect();
-                            let err = String::from_utf8_lossy(&o.stderr);
-                            let tail: String = err.lines().rev().take(12).collect::<Vec<_>>().into_iter().rev().collect::<Vec<_>>().join("\n");
-                            worker_failures.lock().unwrap().push(format!("worker for runs {missing:?} ended with {:?}: {tail}", o.status));
+                        Err(e) => {
+                            if attempt < 2 {
+                                again = pending.clone();
+                            } else {
+                                worker_failures.lock().unwrap().push(format!("cannot spawn worker: {e}"));
+                            }
                         }
                     }
-                    Err(e) => worker_failures.lock().unwrap().push(format!("cannot spawn worker: {e}")),
+                    if !again.is_empty() {
+                        let _ = retries.fetch_add(again.len() as u64, std::sync::atomic::Ordering::SeqCst);
+                    }
+                    pending = again;
+                    attempt += 1;
                 }
             }
         }));
@@ -402,6 +439,10 @@ pub fn batch(prop: &'static dyn Prop, tier: Tier, seed: u64) -> BatchResult {
     let mut lines = std::mem::take(&mut *lines.lock().unwrap());
     lines.sort_by_key(|l| l.run);
     let failures = worker_failures.lock().unwrap().clone();
+    let n_retries = retries.load(std::sync::atomic::Ordering::SeqCst);
+    if n_retries > 0 {
+        eprintln!("note: {n_retries} scenario execution(s) repeated in a fresh process after a harness error");
+    }
     finish(prop, tier, seed, n, &lines, &failures, t0.elapsed())
 }
 
